@@ -1219,24 +1219,35 @@ def part_f(ctx, cov, dist, rng, only=None):
             cases.append(line(0, "root", "bob", "id", "-", "o", 1, 1, "1000", hx("\x01" + "e" * (n_ - 1) + "\n")))
     else:
         cases = list(only)
-    (ans, crash), = run_batch([exe], [cases], env=SAN_ENV, timeout=600)
-    if crash is not None:
-        k = len(ans)
+    # an abort ends a batch: report the case, go on behind it (at most 8 times), so that the cases behind a known
+    # finding are still run
+    m_ = re.search(r"def LINEBUFSIZE : Nat := (\d+)", open(os.path.join(os.path.dirname(HARNESS), "lean", "PdshVerif", "Gen",
+                                                                    "Dsh.lean")).read())
+    lbs = int(m_.group(1)) if m_ else 2048
+    done_cases, ans, todo = [], [], list(cases)
+    for _round in range(8):
+        if not todo:
+            break
+        (a_, crash), = run_batch([exe], [todo], env=SAN_ENV, timeout=600)
+        done_cases += todo[:len(a_)]
+        ans += a_
+        if crash is None:
+            todo = []
+            break
+        k = len(a_)
         sig = "crash"
-        if k < len(cases):
-            rp = cases[k].split()[10]
+        if k < len(todo):
+            rp = todo[k].split()[10]
             rb = bytes.fromhex(rp) if rp not in ("-", "~") else b""
-            m_ = re.search(r"def LINEBUFSIZE : Nat := (\d+)", open(os.path.join(os.path.dirname(HARNESS), "lean", "PdshVerif",
-                                                                            "Gen", "Dsh.lean")).read())
-            lbs = int(m_.group(1)) if m_ else 2048
             text = rb[1:].split(b"\n")[0] + (b"\n" if b"\n" in rb[1:] else b"")
             if rb[:1] not in (b"", b"\0") and len(text) + (0 if text.endswith(b"\n") else 1) + 1 > lbs:
                 sig = "xr:error-reply-overflow"      # the known-finding class: decided from the INPUT alone
         dist["offenders"][sig] = dist["offenders"].get(sig, 0) + 1
-        ctx.offender(sig, "xrcmd.c aborts (sanitizer report / fault) on `%s`: %s" % (cases[k][:120] if k < len(cases) else "?",
+        ctx.offender(sig, "xrcmd.c aborts (sanitizer report / fault) on `%s`: %s" % (todo[k][:120] if k < len(todo) else "?",
                                                                                     crash[-700:]),
-                     {"xr": cases[k] if k < len(cases) else None})
-        cases = cases[:k]
+                     {"xr": todo[k] if k < len(todo) else None})
+        todo = todo[k + 1:]
+    cases = done_cases
     ml = ctx.model("rcmd", "".join(c + "\n" for c in cases), args=["model", "unchanged"]) if cases else []
     obs = []
     for c, a in zip(cases, ans):
